@@ -7,6 +7,7 @@ mod netfault;
 mod ops;
 mod oracles;
 mod policy;
+mod qmon;
 mod replica;
 mod run;
 mod sessions;
@@ -58,7 +59,7 @@ fn plan(p: &str) -> Option<Plan> {
         "C19" => d(&[("hello", 7), ("dag", 2), ("dag-faults", 1)], &["C19"], 6000, 80000, "a hello decision 'no sync' was taken between replicas with different head sets"),
         "C20" => d(&[("cache", 6), ("dag", 3), ("adversarial", 1)], &["C20"], 6000, 80000, "a peer cache update removed an ancestor entry or ignored an uncommitted address"),
         "C15" => d(&[("crash", 7), ("crash-subsector", 1)], &["C15"], 3000, 40000, "crash inside a commit with >= 1 pending write partially surviving"),
-        "C21" => d(&[("dag", 3), ("sync-size", 2), ("adversarial", 1)], &["C21"], 3000, 40000, "traversal queue operations observed in situ"),
+        "C21" => d(&[("dag", 3), ("sync-size", 2), ("adversarial", 1)], &["C21"], 3000, 40000, "the run's searches, braids and sync sessions exercised pop, push and at least one of drain_above / cover_up_to / pop_duplicates on a monitored queue"),
         _ => None,
     }
 }
@@ -84,7 +85,7 @@ fn nontrivial(property: &str, o: &Outcome) -> bool {
         "C19" => c("hello.no_sync_a_ahead") > 0,
         "C20" => c("c20.add_command") > 0,
         "C15" => c("crash.in_commit_partial") > 0,
-        "C21" => c("c21.ops") > 0,
+        "C21" => c("c21.op.pop") > 0 && c("c21.op.push_covered") > 0 && c("c21.op.drain_above") + c("c21.op.cover_up_to") + c("c21.op.pop_duplicates") > 0,
         _ => false,
     }
 }
